@@ -1442,7 +1442,7 @@ def _closed_value(n):
     while n.get("k") == "Block" and not n["stmts"] and n.get("expr") is not None:
         n = peel(n["expr"])
     k = n.get("k")
-    if k == "Lit":
+    if k == "Lit" or (k == "Zst" and n.get("fn")):
         return True
     if k == "Unary" and n.get("op") == "Neg":
         return _closed_value(n["arg"])
